@@ -51,7 +51,7 @@ type c04 struct {
 func (c *c04) Begin(w *sim.World) { c.total = new(big.Int) }
 
 func (c *c04) Step(w *sim.World, s *sim.Step) *Viol {
-	denom := w.Model.L.Denom
+	denom := w.Model.L.NDenom()
 	if s.Op.Kind == "tx" {
 		mints := ofKind(s.Calls, "mint")
 		if !s.OK() {
@@ -184,7 +184,7 @@ var allAdmin = sim.AdminTypes
 
 var C04 = register(&HistProp{ID: "C04",
 	Genesis: func(t *rapid.T) *sim.GenSpec {
-		return sim.DrawGenesis(t, sim.GenOpts{UpperPairGen: true})
+		return sim.DrawGenesis(t, sim.GenOpts{UpperPairGen: true, MixedDenom: true})
 	},
 	Next: func(g *sim.G, i int) *sim.Op {
 		return Mix{Recv: 12, Replay: 2, Send: 2, Dep: 3, Replace: 1, RepDep: 1, Admin: 4, Ledger: 2, Multi: 1,
@@ -207,7 +207,7 @@ type c05 struct {
 
 func (c *c05) Begin(w *sim.World) {
 	c.backed, c.sum, c.depositors = map[uint64]*big.Int{}, new(big.Int), map[string]bool{}
-	c.modGenesis = new(big.Int).Set(orZeroInt(balancesOf(w.Chain.RawKV(w.Chain.LedgKey))[fmt.Sprintf("%x/%s", sim.ModuleAddrBytes(), w.Model.L.Denom)]))
+	c.modGenesis = new(big.Int).Set(orZeroInt(balancesOf(w.Chain.RawKV(w.Chain.LedgKey))[fmt.Sprintf("%x/%s", sim.ModuleAddrBytes(), w.Model.L.NDenom())]))
 }
 
 func orZeroInt(v *big.Int) *big.Int {
@@ -218,7 +218,7 @@ func orZeroInt(v *big.Int) *big.Int {
 }
 
 func (c *c05) Step(w *sim.World, s *sim.Step) *Viol {
-	denom := w.Model.L.Denom
+	denom := w.Model.L.NDenom()
 	modPad := sim.Pad32(sim.ModuleAddrBytes())
 	if s.Op.Kind == "tx" && s.OK() {
 		si, ci := 0, 0
@@ -236,6 +236,10 @@ func (c *c05) Step(w *sim.World, s *sim.Step) *Viol {
 					amt, tok = x.Amount.BigInt(), x.BurnToken
 				case *types.MsgDepositForBurnWithCaller:
 					amt, tok = x.Amount.BigInt(), x.BurnToken
+				}
+				// mints belong to receives earlier in the same transaction (C04's business)
+				for ci < len(calls) && calls[ci].Kind == "mint" {
+					ci++
 				}
 				if ci+1 >= len(calls) || calls[ci].Kind != "transfer" || calls[ci+1].Kind != "burn" {
 					return viol("C05", s.Idx, "dependency requests of a successful deposit", "[transfer, burn]", fmt.Sprint(calls))
@@ -270,7 +274,7 @@ func (c *c05) Step(w *sim.World, s *sim.Step) *Viol {
 				c.sum.Add(c.sum, amt)
 				c.deposits++
 				c.depositors[from] = true
-				key := fmt.Sprintf("%x/%s", []byte(sdk.MustAccAddressFromBech32(from)), w.Model.L.Denom)
+				key := fmt.Sprintf("%x/%s", []byte(sdk.MustAccAddressFromBech32(from)), w.Model.L.NDenom())
 				if debits[key] == nil {
 					debits[key] = new(big.Int)
 				}
@@ -378,7 +382,7 @@ func (c *c05) Summary(w *sim.World) (string, []string) {
 
 var C05 = register(&HistProp{ID: "C05",
 	Genesis: func(t *rapid.T) *sim.GenSpec {
-		return sim.DrawGenesis(t, sim.GenOpts{BigBalances: true, PrefundMod: rapid.IntRange(0, 3).Draw(t, "prefund") == 0, NoPause: true})
+		return sim.DrawGenesis(t, sim.GenOpts{BigBalances: true, PrefundMod: rapid.IntRange(0, 3).Draw(t, "prefund") == 0, NoPause: true, MixedDenom: true})
 	},
 	Next: func(g *sim.G, i int) *sim.Op {
 		g.NoForge = true
@@ -584,7 +588,9 @@ func (c *c06) Summary(w *sim.World) (string, []string) {
 }
 
 var C06 = register(&HistProp{ID: "C06",
-	Genesis: func(t *rapid.T) *sim.GenSpec { return sim.DrawGenesis(t, sim.GenOpts{NoPause: true, BigBalances: true}) },
+	Genesis: func(t *rapid.T) *sim.GenSpec {
+		return sim.DrawGenesis(t, sim.GenOpts{NoPause: true, BigBalances: true, MixedDenom: true})
+	},
 	Next: func(g *sim.G, i int) *sim.Op {
 		g.NoForge = true
 		return Mix{Send: 8, Dep: 8, Replace: 3, RepDep: 4, Admin: 2, Multi: 1, DepValid: 90, ReplaceValid: 90, AdminHolder: 90,
